@@ -98,7 +98,11 @@ pub fn write_evidence(
             "batch_hash": format!("{:016x}", p.batch_hash),
         }));
         for (idx, (c, v)) in &p.known_hits {
-            known_rows.push(json!({"finding_index": idx, "count": c, "example": v}));
+            if v.property == spec.property {
+                known_rows.push(json!({"finding_index": idx, "count": c, "example": v}));
+            } else {
+                *other.entry(format!("{} (known finding)", v.property)).or_insert(0) += c;
+            }
         }
         for (k, c) in &p.other_violations {
             *other.entry(k.clone()).or_insert(0) += c;
@@ -195,6 +199,10 @@ pub fn run_check(spec: &CheckSpec, ctx: &Ctx) -> i32 {
         }
         for (idx, (c, v)) in &rep.known_hits {
             let f = &ctx.known.findings[*idx];
+            // Known findings of other properties are reported by those properties' checks.
+            if f.property != spec.property {
+                continue;
+            }
             crate::outln!(
                 "KNOWN-FINDING: property={} oracle={} key={} hits={} — {}",
                 f.property, v.oracle, f.key, c, f.description
